@@ -6,6 +6,13 @@ import os
 VERIF = os.path.dirname(os.path.dirname(os.path.abspath(__file__)))
 
 CHECKS = {
+    "C18": dict(
+        category="model_checking",
+        technique="TLA+ spec Quote (the judgement Complete(name, opening style, typed, closing-quote-after) -> reads back; reference of which quoting styles can denote a name; named deviations keyed on name features) checked by TLC over every name up to length 3 of an 18-symbol alphabet; every name becomes a real file/directory, the real completer's insertion is spliced into the line and the line is executed with a recording alias; outcomes validated against QuoteTrace by TLC; completion-context analyser run on every cursor of hostile and completed lines",
+        text="TLC checks ReadsBack and Satisfiable on Quote and, as a self-test, refutes ReadsBack with each listed deviation enabled; the real path completer is then exercised on every name up to length 2 (quick) / 3 (thorough) over 17 symbols plus thousands of longer names over 37 symbols (spaces, both quotes, $, backslash, newline/tab, !, glob and shell metacharacters, leading ~ - # = :, keywords), five opening-quote styles, typed prefixes, closing quote already present, files and directories - and the completed line is *executed*, so an expected string that is itself wrong cannot hide; a failing case must be explained by a listed deviation whose enabling condition (features of the name and opening style) holds, otherwise it is a violation. The analyser is run on >10k (text, cursor) pairs: no exception, prefix/suffix reproduce the text.",
+        design_ref="3/C18",
+        note="Trusts TLC, the splice rule line[:cursor-prefix_len]+completion+line[cursor:], and executing the line as the meaning of the inserted text; names without `/` and NUL; nine quoting defect classes are known findings.",
+    ),
     "C03": dict(
         category="model_checking",
         technique="TLA+ specs CmdGrammar (what `wrapped by hand` means, token by token; the judgement bare = explicit) and Recovery (the wrapping recovery loop against an adversarial parser: budget, passes, one nested call; termination by a lexicographic variant under weak fairness) checked by TLC; thousands of shapes rendered bare and hand-wrapped, both put through the real three-phase parse (trees compared, unequal trees executed with recording aliases) and validated against CmdGrammarTrace; every hostile string parsed under a loop-head event point and its iteration trace validated against RecoveryTrace by TLC",
